@@ -87,7 +87,9 @@ def opt(name, typ, default):
     return {"name": name, "type": typ, "default": default}
 
 
-OPTS_Q = (opt("ob", "bool", B0), opt("oi", "int", V("i", 0)), opt("os", "opt_str", NONE), opt("oq", "seq_str", V("q")))
+# "oc" is only ever assigned by the cascading listener (nested update), never by a scenario call
+OPTS_Q = (opt("ob", "bool", B0), opt("oi", "int", V("i", 0)), opt("os", "opt_str", NONE), opt("oq", "seq_str", V("q")),
+          opt("oc", "bool", B0))
 LATE_Q = (opt("ol", "opt_str", NONE),)
 OPTS_T = OPTS_Q + (opt("ot", "str", S1), opt("on", "opt_int", NONE))
 LATE_T = LATE_Q + (opt("om", "int", V("i", 0)),)
@@ -95,11 +97,14 @@ LATE_T = LATE_Q + (opt("om", "int", V("i", 0)),)
 
 def listeners(names_all):
     # notification order of the real code: subscribe()d callables first, then receivers connected to .changed
+    # listener 5 reacts to ob becoming true by switching oc on with a nested update (cf. Intercept: intercept_active);
+    # listener 2 (not told about oc) may reject the outer call afterwards, listener 3 (told about oc) rejects os = s1
     return (
-        {"id": 1, "kind": "sub", "subs": ("oi",), "forbid": frozenset()},
-        {"id": 2, "kind": "sub", "subs": ("oi", "os"), "forbid": frozenset({("oi", V("i", 7))})},
-        {"id": 3, "kind": "glob", "subs": tuple(names_all), "forbid": frozenset({("os", S1)})},
-        {"id": 4, "kind": "glob", "subs": tuple(names_all), "forbid": frozenset()},
+        {"id": 5, "kind": "sub", "subs": ("ob",), "forbid": frozenset(), "casc": ("ob", B1, "oc", B1)},
+        {"id": 1, "kind": "sub", "subs": ("oi",), "forbid": frozenset(), "casc": ()},
+        {"id": 2, "kind": "sub", "subs": ("oi", "os"), "forbid": frozenset({("oi", V("i", 7))}), "casc": ()},
+        {"id": 3, "kind": "glob", "subs": tuple(names_all), "forbid": frozenset({("os", S1)}), "casc": ()},
+        {"id": 4, "kind": "glob", "subs": tuple(names_all), "forbid": frozenset(), "casc": ()},
     )
 
 
@@ -115,6 +120,8 @@ def _updates(tier):
         U("update", ("oi", S1)), U("update", ("ob", V("i", 1))), U("update", ("oq", S1)),
         U("update", ("oq", V("x", 2))),
         U("update", ("ob", B1), ("oi", V("i", 5))),
+        U("update", ("ob", B1), ("oi", V("i", 7))),           # nested oc accepted, then listener 2 rejects the call
+        U("update", ("ob", B1), ("os", S1)),                  # the nested update itself is rejected by listener 3
         U("update", ("oi", V("i", 5)), ("ob", S1)),           # TypeError after an assignment
         U("update", ("ob", V("i", 1)), ("oi", V("i", 5))),    # TypeError before any assignment
         U("update", ("oi", V("i", 5)), ("os", S1)),           # rejected by listener 3, two keys
@@ -173,6 +180,7 @@ class Run:
         self.order = [o[0] for o in list(sc["opts"]) + list(sc["late"])]
         self.tuple_seq = bool(sc.get("tuple_seq"))
         self.notes: list = []
+        self.nested: list = []  # nested updates made by cascading listeners during the current call
         self.keep: list = []  # listeners are held weakly by the code
         self.exists: list = []
         self.my_deferred: dict = {}  # harness bookkeeping of what it asked to defer (abstract values)
@@ -224,11 +232,12 @@ class Run:
         for name, typ, default in self.sc["opts"]:
             o.add_option(name, _pytype(typ), self.conc(default), "help")
         if with_listeners:
-            for lid, kind, subs, forbid in self.sc["listeners"]:
-                self.attach(o, lid, kind, subs, [(n, list(v)) for n, v in forbid])
+            for l in self.sc["listeners"]:
+                lid, kind, subs, forbid = l[:4]
+                self.attach(o, lid, kind, subs, [(n, list(v)) for n, v in forbid], list(l[4]) if len(l) > 4 else [])
         return o
 
-    def attach(self, o, lid, kind, subs, forbid):
+    def attach(self, o, lid, kind, subs, forbid, casc):
         run = self
 
         def body(opts, updated):
@@ -237,6 +246,11 @@ class Run:
             for n, v in forbid:
                 if snap.get(n) == list(v):
                     raise run.exc.OptionsError(f"listener {lid} rejects {n}")
+            if casc:
+                trig, tval, tgt, val = casc
+                if trig in updated and snap.get(trig) == list(tval) and tgt in snap and snap[tgt] != list(val):
+                    opts.update(**{tgt: run.conc(val)})  # a rejection of the nested update propagates, as in an addon
+                    run.nested.append({"name": tgt, "val": list(val)})
 
         if kind == "sub":
             def cb(opts, updated):
@@ -296,6 +310,7 @@ class Run:
         })
         for op in sc["ops"]:
             self.notes = []
+            self.nested = []
             kind = op[0]
             if kind == "update":
                 self.do_update(op[1], [(k, tuple(v)) for k, v in op[2]])
@@ -328,7 +343,7 @@ class Run:
         except Exception as e:  # an observation: the update was rejected
             outcome, exc = "raised", type(e).__name__
         self.trace.append({"k": "update", "via": via, "keys": keys, "want": want, "outcome": outcome, "exc": exc,
-                           "vals": self.snapshot(self.opts), "notes": self.notes})
+                           "vals": self.snapshot(self.opts), "notes": self.notes, "nested": self.nested})
         return outcome == "ok"
 
     def do_update(self, via, kvs):
@@ -397,12 +412,13 @@ class Check(core.PropertyCheck):
     MODEL = "Options"
     MON = "Mon_Options"
     REQUIRED_WITNESSES = ("accepted", "accepted_multi", "rejected_type", "rejected_listener", "rejected_parse",
-                          "listener_saw_rejected_value", "rejected_multi", "deferred", "process_deferred", "reset",
+                          "listener_saw_rejected_value", "rejected_multi", "nested_accepted", "nested_then_rejected", "deferred", "process_deferred", "reset",
                           "addopt", "roundtrip", "roundtrip_strings", "roundtrip_deferred")
     REQUIRED_ACTIONS = ("DoUpdate", "DoDefer", "DoSet", "AddOption", "ProcessDeferred", "Reset", "SaveLoad")
     ASSUMPTIONS = (
-        "listeners are harness callables (subscribe()d or connected to .changed) that read every option when notified "
-        "and reject fixed values; nested updates from inside a listener are not explored",
+        "listeners are harness callables (subscribe()d or connected to .changed) that read every option when notified, "
+        "reject fixed values, and may assign one reserved option with a nested update() when a trigger option gets a "
+        "value (one level; every listener told about the reserved option is also told about the outer call)",
         "values are projected by Python type (bool/int/str/None/sequence of str/other) and strings by identity with the "
         "scenario's string pool; an int option holding a bool is not distinguished (bool is an int in Python) and never fed",
         "an update is 'rejected' when the call raises; update() with unknown names (KeyError) is outside the property's "
@@ -441,7 +457,8 @@ class Check(core.PropertyCheck):
         names = [o["name"] for o in consts["Opts"]]
         ls = []
         for l in consts["Listeners"]:
-            ls.append([l["id"], l["kind"], list(l["subs"]), sorted([n, list(v)] for n, v in l["forbid"])])
+            ls.append([l["id"], l["kind"], list(l["subs"]), sorted([n, list(v)] for n, v in l["forbid"]),
+                       [list(x) if isinstance(x, tuple) else x for x in l.get("casc", ())]])
         d = {"opts": [[o["name"], o["type"], list(o["default"])] for o in consts["Opts"]],
              "late": [[o["name"], o["type"], list(o["default"])] for o in consts["Late"]],
              "listeners": ls, "pool": pool, "scls": scls, "ops": ops}
@@ -541,13 +558,29 @@ class Check(core.PropertyCheck):
                             break
             ls.append([i + 1, kind, subs, forbid])
         forb = [(n, tuple(v)) for l in ls for n, v in l[3]]
+        for l in ls:
+            l.append([])
+        reserved = None
+        if rng.random() < 0.5:
+            # a reserved option "oz" that only a cascading listener assigns; the listener is told about the trigger
+            reserved = "oz"
+            opts.append(["oz", "bool", list(B0)])
+            decl.append(["oz", "bool", list(B0)])
+            tof["oz"], dflt["oz"] = "bool", B0
+            c = rng.choice(ls)
+            trig = rng.choice(c[2] if c[1] == "sub" else onames)
+            for _try in range(8):
+                tv = val(tof[trig])
+                if tv != dflt[trig] and (trig, tv) not in forb:
+                    c[4] = [trig, list(tv), "oz", list(B1)]
+                    break
         ops = []
         exists = list(onames)
         for _ in range(rng.randint(3, 14)):
             r = rng.random()
             if r < 0.55:
                 via = rng.choice(["update", "update", "update", "setattr", "defer", "set", "set_defer"])
-                pool_names = [d[0] for d in decl] if via in ("defer", "set_defer") or (via == "set" and rng.random() < 0.1) else exists
+                pool_names = [d[0] for d in decl if d[0] != reserved] if via in ("defer", "set_defer") or (via == "set" and rng.random() < 0.1) else exists
                 k = 1 if via == "setattr" else min(len(pool_names), rng.choice([1, 1, 2, 2, 3, 4]))
                 names = rng.sample(pool_names, k)
                 kvs = []
@@ -570,7 +603,7 @@ class Check(core.PropertyCheck):
                     # a toggle of an option that does not exist yet cannot be given a requested value: keep it typed
                     kvs = [[n, list(V("b", 1)) if (v == ["toggle"] and n not in exists) else v] for n, v in kvs]
                 ops.append(["update", via, kvs])
-            elif r < 0.65 and late and len(exists) < len(decl):
+            elif r < 0.65 and any(d[0] not in exists for d in late):
                 idx = rng.choice([i for i, d in enumerate(late) if d[0] not in exists])
                 exists.append(late[idx][0])
                 ops.append(["addopt", idx])
